@@ -342,6 +342,7 @@ func (e *Engine) sliceElems(st *State, s SliceV) []Value {
 	if s.Arr == -1 || s.Len == 0 {
 		return nil
 	}
+	e.recordAccess(st, "read", s.Arr, nil)
 	arr := e.obj(st, s.Arr).Val.(ArrayV)
 	return arr.E[s.Off : s.Off+s.Len]
 }
@@ -609,7 +610,8 @@ func (e *Engine) recordAccess(st *State, kind string, obj int, path []PathEl) {
 		return
 	}
 	loc := fmt.Sprintf("o%d", obj)
-	if len(path) > 0 && path[0].T == nil {
+	if _, isArr := st.heap[obj].Val.(ArrayV); !isArr && len(path) > 0 && path[0].T == nil {
+		// struct objects: one location per field; backing arrays: one location for the whole array
 		loc += fmt.Sprintf(".%d", path[0].I)
 	}
 	at := ""
